@@ -489,6 +489,7 @@ type FuncSpec struct {
 	GhostLets    []*Clause
 	EmitsC       []*Clause
 	modsResolved bool
+	ModObjs      map[string][]string // heap key -> parameter/receiver names whose object alone is modified (absent: any object)
 }
 
 type SpecFunc struct {
